@@ -17,6 +17,8 @@ pub(crate) fn clean_file(path: impl AsRef<Path>, recreate_index_file: bool) -> R
     if !path.as_ref().exists() {
         Ok(())
     } else if recreate_index_file {
+        #[cfg(pearl_verif)]
+        crate::verif::io(crate::verif::IoOp::Truncate, path.as_ref(), None, 0, 0)?;
         StdFile::create(path).map(|_| ()).map_err(Into::into)
     } else {
         let msg = "Clean file is not permitted";
